@@ -36,4 +36,24 @@ CLAIMED["C02"] = {
     "note": "Trusted: numpy reference simulator and Pauli matrices. Not covered: operators with more than 2 non-identity terms (one 5-term case), > 3-4 qubits, n_shots > 2; post-selection with finite shots is only checked for the distributions handed to full-distribution samplers (shot filtering itself is C10).",
 }
 ENGINES[0]["serves_properties"] = ["C01", "C02", "C09"]
+CLAIMED["C10"] = {
+    "engine": "seqspace+choicetree",
+    "technique": "bounded exhaustive exploration of measurement programs (length<=4/5) against a reference branch tree; exhaustive enumeration of every answer of the scripted random sources (np.random.random grid, cirq prng.choice, state samplers) for n_shots 1-2",
+    "text": "All words of length <= 4 (thorough 5) over {H,X,RY,CNOT,CRY,MEASURE} and over a CMEASURE alphabet (dictionary control incl. nested controlled measurements with trailing gates; function and class control with a two-round repeat-until-success) are simulated in exact mode for EVERY outcome string: post-measurement state, branch distribution, recorded success probability, applied gate list (simulate and generate_applied_gates), probabilities summing to one and weighted branches reproducing the unconditioned distribution; zero-probability strings must be refused. Sampled modes run under a choice-tree explorer owning every random draw: for CMEASURE circuits every grid value of each random() draw must select the outcome the Born probability dictates and the state handed to the final sampler must be the branch state; for MEASURE circuits the executions weighted by the probabilities recorded at their draws must induce exactly the i.i.d. distribution of the reference joint table, and all_frequencies / mid_circuit_meas_freqs / frequencies must be marginals of one table.",
+    "note": "Trusted: numpy reference simulator + branch unfolding (self-tested); cirq.Simulator draws only through the scripted RandomState. Not covered: > 2-3 qubits, > 3 measurement gates, n_shots > 2, noise together with measurement.",
+}
+CLAIMED["C03"] = {
+    "engine": "seqspace",
+    "technique": "exhaustive enumeration of ladder-operator pairs, monomial pairs and small Hamiltonians for n=2..6(7) spin-orbitals, all encodings/orderings/sectors, vs explicit Fock-space matrices",
+    "text": "For JW/BK/JKMN (n=2..6, thorough 7), scBK (n=4,6, every (n_alpha,n_beta)), HCB (2-3 spatial orbitals) and combinatorial (2-3 modes, every sector): CAR for all ordered ladder pairs, products/sums/adjoints over all ordered monomial pairs, spectra of every Hermitianised one-/two-body generator and of all Hamiltonians with <= 3 generators, compared with ladder matrices built from occupation kets (no qubit mapping, no openfermion in the oracle). Exhaustive for the stated sizes, both orderings, operators not touching the top orbital and pure constants included.",
+    "note": "Trusted: mc/ref/fermion.py and mc/ref/pauli.py (self-tested: CAR, Pauli products). Not covered: n > 7, Hamiltonians with more than 3 generators, scBK operators changing N by 2 (docstring and property disagree on them).",
+}
+CLAIMED["C05"] = {
+    "engine": "seqspace",
+    "technique": "exhaustive enumeration of (n_spinorbitals, n_electrons, spin, encoding, ordering) and of every occupation vector up to length 6 (13 thorough), oracle = encoded occupation-number operators",
+    "text": "Every reference circuit for n in {2,4,6,8} (thorough to 14), every electron count and admissible spin (negative, odd N, None), JW/BK/scBK/JKMN, both orderings, and the encoding of every occupation vector of length 1..6 (thorough 1..10,12,13) must be an X-only circuit whose basis state gives expectation exactly 1/0 of the encoded number operator of each requested/other spin-orbital.",
+    "note": "Trusted: fermion_to_qubit_mapping of number operators is used as the measuring device (its faithfulness is C03's subject) plus mc/ref/pauli.py. Not covered: registers beyond the bound.",
+}
+ENGINES[0]["serves_properties"] = ["C01", "C02", "C03", "C05", "C09", "C10"]
+ENGINES[2]["serves_properties"] = ["C01", "C02", "C10"]
 NOT_CLAIMED = {}
